@@ -320,10 +320,26 @@ def run(ctx, col: Collector):
                   f'the parser keeps the option as {stored}', 'PyDBMLParser.__init__ does not store its allow_properties argument',
                   node=init.node, file=init.file)
         # _set_syntax branches on the same attribute
-        tests = [norm(n.test) for n in ast.walk(gm.set_syntax.node) if isinstance(n, (ast.IfExp, ast.If))]
-        col.check(stored is not None and any(stored in t for t in tests), 'C15-flag', '_set_syntax:branches-on-flag',
-                  f'_set_syntax selects the grammar on {stored}', f'_set_syntax does not branch on {stored} (tests: {tests})',
-                  node=gm.set_syntax.node, file=gm.set_syntax.file)
+        # ... directly or in a method of the parser it uses (called, or handed on as a callable): the closure over `self.<method>`
+        closure = [gm.set_syntax]
+        seen_m = {gm.set_syntax.qualname}
+        for f_ in closure:
+            for n in ast.walk(f_.node):
+                if isinstance(n, ast.Attribute) and isinstance(n.value, ast.Name) and n.value.id == 'self' and n.attr in pcls.methods \
+                        and pcls.methods[n.attr].qualname not in seen_m and len(closure) < 12:
+                    seen_m.add(pcls.methods[n.attr].qualname)
+                    closure.append(pcls.methods[n.attr])
+        tests = [norm(n.test) for f_ in closure for n in ast.walk(f_.node) if isinstance(n, (ast.IfExp, ast.If, ast.While))]
+        tests += [norm(n.subject) for f_ in closure for n in ast.walk(f_.node) if isinstance(n, ast.Match)]
+        reads = [n for f_ in closure for n in ast.walk(f_.node) if isinstance(n, ast.Attribute) and isinstance(n.ctx, ast.Load) and stored is not None and norm(n) == stored]
+        if stored is not None and any(stored in t for t in tests):
+            col.ok('C15-flag', '_set_syntax:branches-on-flag', f'_set_syntax selects the grammar on {stored}', node=gm.set_syntax.node, file=gm.set_syntax.file)
+        elif stored is not None and reads:
+            col.unk('C15-flag', '_set_syntax:branches-on-flag', f'_set_syntax reads {stored} but not in a test this rule can follow ({len(reads)} reads in '
+                    f'{[f_.qualname for f_ in closure]})', node=reads[0], file=gm.set_syntax.file)
+        else:
+            col.bad('C15-flag', '_set_syntax:branches-on-flag', f'neither _set_syntax nor a parser method it uses ({[f_.qualname for f_ in closure]}) reads '
+                    f'{stored}: the grammar is the same whatever the option says', node=gm.set_syntax.node, file=gm.set_syntax.file)
         bd = pcls.methods.get('build_database')
         if bd is None:
             raise AnchorMissing('PyDBMLParser.build_database')
